@@ -52,6 +52,7 @@ def find_outside_quotes(haystack, needle, start_i=0, quotes=b'"'):
     quoted = None
     h_len = len(haystack)
     n_len = len(needle)
+    escaped = False
     for i in range(start_i, h_len-n_len+1):
         if not quoted:
             if haystack[i:i+n_len] == needle:
@@ -60,6 +61,11 @@ def find_outside_quotes(haystack, needle, start_i=0, quotes=b'"'):
                 if haystack[i] == quote:
                     quoted = quote
                     break
+        elif escaped:
+            # The character after a backslash inside quotes is a quoted-pair.
+            escaped = False
+        elif haystack[i:i+1] == b'\\':
+            escaped = True
         elif haystack[i] == quoted:
             quoted = None
     return -1
